@@ -23,6 +23,10 @@ pub struct World {
     pub runner_thread: Option<std::thread::ThreadId>,
     pub in_execution: bool,
     pub tail_requests: u32,
+    /// "stall" policy: (task, first step at which it may run again)
+    pub stalled: Vec<(u32, u32)>,
+    pub stalls_left: u32,
+    pub stall_rng: Rng,
 }
 
 static WORLD: Mutex<Option<World>> = Mutex::new(None);
@@ -45,11 +49,47 @@ pub fn init(sc: E2Scenario, history_path: String) {
         runner_thread: None,
         in_execution: false,
         tail_requests: 0,
+        stalled: Vec::new(),
+        stalls_left: 0,
+        stall_rng: Rng::new(0),
     });
+}
+
+/// Called by the facade at the start of an operation that publishes a result to other threads
+/// (channel send). Under the "stall" policy the publishing task may be held back here for a
+/// long, seeded number of steps while everybody else runs.
+pub fn before_publish() {
+    let stall = with(|w| {
+        if w.sc.sched.policy != "stall" || w.stalls_left == 0 || !w.in_execution {
+            return false;
+        }
+        if !w.stall_rng.chance(1, 2) {
+            return false;
+        }
+        w.stalls_left -= 1;
+        let d = match w.stall_rng.below(3) {
+            0 => w.stall_rng.range(4, 40),
+            1 => w.stall_rng.range(40, 400),
+            _ => w.stall_rng.range(400, 2000),
+        } as u32;
+        let until = w.steps + d;
+        let task = w.current;
+        w.stalled.push((task, until));
+        true
+    });
+    let _ = stall;
+    // A plain context switch, under every policy (so that a recorded trace lines up whatever
+    // policy produced it): if the task was just stalled the scheduler will not pick it again
+    // before the stall is over, unless nobody else can run.
+    if with(|w| w.in_execution) {
+        shuttle::thread::sleep(std::time::Duration::ZERO);
+    }
 }
 
 pub fn enter_execution() {
     with(|w| {
+        w.stalls_left = if w.sc.sched.policy == "stall" { w.sc.sched.param.max(1) } else { 0 };
+        w.stall_rng = Rng::new(w.sc.sched.seed ^ 0x57a1_1000);
         w.runner_thread = Some(std::thread::current().id());
         w.in_execution = true;
         w.hist.tasks = 1;
@@ -354,7 +394,20 @@ impl Scheduler for SimScheduler {
         current: Option<TaskId>,
         is_yielding: bool,
     ) -> Option<TaskId> {
-        let ids: Vec<usize> = runnable.iter().map(|t| t.id().into()).collect();
+        let all_ids: Vec<usize> = runnable.iter().map(|t| t.id().into()).collect();
+        // "stall" policy: stalled tasks sit out while anybody else can run
+        let ids: Vec<usize> = with(|w| {
+            let now = w.steps + 1;
+            w.stalled.retain(|(_, until)| *until > now);
+            let free: Vec<usize> = all_ids.iter().copied().filter(|id| !w.stalled.iter().any(|(t, _)| *t as usize == *id)).collect();
+            if free.is_empty() {
+                // everybody who could run is stalled: the stalls end early
+                w.stalled.clear();
+                all_ids.clone()
+            } else {
+                free
+            }
+        });
         let cur: Option<usize> = current.map(|c| c.into());
         let cur_runnable = cur.map(|c| ids.contains(&c)).unwrap_or(false);
 
@@ -387,7 +440,7 @@ impl Scheduler for SimScheduler {
             ids[0]
         } else {
             let c = match self.spec.policy.as_str() {
-                "random" => ids[self.rng.usize_below(ids.len())],
+                "random" | "stall" => ids[self.rng.usize_below(ids.len())],
                 "sticky" => {
                     // a task that yields (spin/poll loop) is not kept running
                     if cur_runnable && !is_yielding && self.rng.below(256) < self.spec.param as u64
